@@ -59,6 +59,7 @@ ASSUMPTIONS = [
     "declarations (class / module / constant / type / field / method / parameter / local names, event suffixes), string literals, comments and numbers are left exactly as written; everything else that is a word is a keyword or a reference and is re-cased",
     "file stems are the declared class / module names as written (the class index is keyed by the upper-cased stem)",
     "the same sequence of requests is sent to both variants (answers may depend on the order of requests: C10 ASSUMPTIONS); HashMap iteration order is not observed (labels, hierarchy items and diagnostics are compared sorted)",
+    "the declared type of a MEMBER (field, function, alias) never needs a `uses` look-up (as checks/c10.py ASSUMPTIONS: what such a look-up finds depends on the history of requests; the same history is used for both variants, the restriction only keeps the generated workspaces inside the territory C10 / C11 validated)",
     "the outline's `detail` strings echo references as written (parent class, field type, return type): compared exactly by the oracle, reported as finding outline-detail-echo",
 ]
 
@@ -513,7 +514,11 @@ class Render:
                 self.emit(" ")
                 rt = d.type
                 if r.random() < 0.12:
-                    rt = ("n", r.choice(["Text", "tVarByteArray", "aListOfInstances"]))
+                    # the return-type rule's three names.  A MEMBER's declared type must never need a `uses` look-up
+                    # (ASSUMPTIONS; checks/c10.py): the two non-native names only where the entity uses nothing
+                    # or the name is an indexed class
+                    ok = ["Text"] + [n for n in ("tVarByteArray", "aListOfInstances") if not e.uses or sem.find(n)]
+                    rt = ("n", S.vary(r, r.choice(ok), 0.3))
                 self.type_ref(("n", rt[1]) if rt else ("n", "int4"))
             for m in r.sample(["private", "protected", "final", "override"], r.choice([0, 0, 0, 1])):
                 self.emit(" ")
@@ -581,6 +586,40 @@ def gen_workspace_pieces(rng):
     return files, [q for q in queries if id(q) in keep]
 
 
+def damage(rng, files):
+    """the malformed stream: the same damage in both variants (applied to the pieces before re-casing): a keyword,
+    an operator / bracket piece or a whole line is dropped, or a stray bracket is inserted"""
+    files = [(s, [list(ln) for ln in lines]) for s, lines in files]
+    for _ in range(rng.randint(1, 3)):
+        s, lines = rng.choice(files)
+        # only lines inside method bodies (indented): a damaged top-level declaration may leave a member with a type
+        # that needs a `uses` look-up (ASSUMPTIONS)
+        cand = [i for i, ln in enumerate(lines) if ln and i > 0 and ln[0][0].startswith(" ")]
+        if not cand:
+            continue
+        i = rng.choice(cand)
+        k = rng.random()
+        if k < 0.35:
+            js = [j for j, (t, c) in enumerate(lines[i]) if c == K]
+            if js:
+                lines[i][rng.choice(js)] = (" ", O)
+        elif k < 0.6:
+            js = [j for j, (t, c) in enumerate(lines[i]) if c == O and t.strip()]
+            if js:
+                j = rng.choice(js)
+                t = lines[i][j][0]
+                cut = rng.randrange(len(t))
+                # drop one operator / bracket character (never a blank, a quote, or part of a number: pieces must not
+                # be glued into one token)
+                if t[cut] in "()[]=+-*<>.,:&":
+                    lines[i][j] = (t[:cut] + " " + t[cut + 1:], O)
+        elif k < 0.8:
+            lines[i] = []
+        else:
+            lines[i].insert(rng.randrange(len(lines[i]) + 1), (" " + rng.choice([")", "(", "]", ".", "=", "endif", "$"]) + " ", O))
+    return files
+
+
 def recase_files(rng, files, mode):
     """-> (files of W, files of W', number of keyword spans changed, number of reference spans changed)"""
     changed = {K: 0, R: 0}
@@ -618,33 +657,46 @@ def classify_program(text):
     pieces = []
     in_body = False
     header_line = False
+    no_body = False
     prev_word = None
+    decl_line = False          # a line that starts with var / const / type: enum variants, record fields ... are declared there
+    line_start = True
     for idx, (k, s, e) in enumerate(toks):
         t = text[s:e]
         cls = O
         if k == "w":
             up = t.upper()
+            first_word = line_start
+            if line_start:
+                decl_line = up in ("VAR", "CONST", "TYPE")
+                line_start = False
             if up in kws:
                 cls = K
-                if up in METHOD_KW and not in_body:
-                    header_line = True
+                if up in METHOD_KW and first_word:
+                    # a method header (also directly after a forward / external method, which has no body)
+                    header_line, in_body, no_body = True, False, False
+                if header_line and up in ("FORWARD", "EXTERNAL"):
+                    no_body = True
                 if up in END_KW or (up == "END" and in_body):
                     in_body = False
             else:
                 nxt = next((text[a:b] for kk, a, b in toks[idx + 1:] if text[a:b] not in (" ", "\t")), "")
                 nxt2 = text[e:e + 3].lstrip(" \t")
                 is_decl = (prev_word in DECL_AFTER) or (nxt == ":" and not nxt2.startswith(":=")) or nxt == "#" or prev_word == "#"
-                if in_body and not header_line and not is_decl:
+                if in_body and not header_line and not is_decl and not decl_line:
                     cls = R
             prev_word = up
         elif k == "o" and t in "\r\n":
+            line_start = True
+            decl_line = False
             if header_line:
                 header_line = False
-                in_body = True
+                in_body = not no_body
         elif k == "o" and t == "#":
             prev_word = "#"
         elif k != "o" or t not in " \t":
             prev_word = None
+            line_start = False
         pieces.append((t, cls))
     return [pieces]
 
@@ -841,7 +893,7 @@ def parse_obs(obs):
     fpart, answers = obs.split("@Q@", 1)
     files = []
     for f in [x for x in fpart.split("%") if x]:
-        m = re.match(r"^(?:MODEL-NOT-SIM )?([^\^]*)\^T(.*)\^O(.*)\^G(.*)$", f, re.S)
+        m = re.match(r"^(?:MODEL-[A-Z-]+ )*([^\^]*)\^T(.*)\^O(.*)\^G(.*)$", f, re.S)
         if not m:
             return None
         files.append((m.group(1), m.group(2), m.group(3), [d for d in m.group(4).split(";") if d]))
@@ -999,14 +1051,17 @@ def split(out):
 
 def gen_cases(ctx):
     rng = random.Random(ctx.seed)
-    nws = 170 if ctx.quick else 2400
-    nprog = 120 if ctx.quick else 1800
+    nws = 260 if ctx.quick else 4000
+    nprog = 220 if ctx.quick else 3000
     cases = list(probes())
-    hist = {"workspaces": 0, "programs": 0, "pairs": 0, "kw_spans_changed": 0, "ref_spans_changed": 0, "queries": 0}
+    hist = {"workspaces": 0, "malformed_workspaces": 0, "programs": 0, "pairs": 0, "kw_spans_changed": 0, "ref_spans_changed": 0, "queries": 0}
     for _ in range(nws):
         files, queries = gen_workspace_pieces(rng)
         hist["workspaces"] += 1
-        for mode in rng.sample(MODES, 2 if ctx.quick else 2):
+        if rng.random() < 0.15:
+            files = damage(rng, files)
+            hist["malformed_workspaces"] += 1
+        for mode in rng.sample(MODES, 3):
             fa, fb, nk, nr = recase_files(rng, files, mode)
             cases.append(mk_line(fa, fb, queries, "kind=ws,mode=%s,kw=%d,ref=%d" % (mode, nk, nr)))
             hist["pairs"] += 1
@@ -1058,7 +1113,7 @@ def correspondence(ctx, broken_obligations=()):
                  "workspaces (checks/sem_common.py forests of 2..6 classes + modules with uses, constants, types, fields, methods with "
                  "parameters and locals incl. loop counters, tVarByteArray buffers, duplicate locals; bodies of assignments, calls, "
                  "WriteLn, return / pass, if / elseif / else, for, while, loop, repeat, switch / when, comments, `inherited self.X`, "
-                 "`Purge(x)`, dangling dots, partial names; string literals and comments containing keywords and names) x 2 re-casing modes "
+                 "`Purge(x)`, dangling dots, partial names; string literals and comments containing keywords and names) x 3 re-casing modes "
                  "each out of upper / lower / alternating / random per letter / mixed, applied to every keyword and every reference "
                  "occurrence (parent class, uses, type references incl. natives, refTo / listOf targets, chains, call names, self, pass, "
                  "Purge, loop counters), declarations left as written; %d single-file programs of the full grammar (vlib/goldgen.py: types, "
